@@ -113,6 +113,7 @@ class Scenario:
     ops: List[tuple] = field(default_factory=list)
     # ops: ("get_prompt",) | ("send_command", cmd, strip_prompt, eager_input) | ("send_commands", [cmds], strip)
     #      | ("send_interactive", [(input, expect, hidden)], complete_patterns or None)
+    #      | ("send_and_read", cmd, [expected outputs], strip_prompt)   (timed read loop; transport timeouts are swallowed)
     prompts: Optional[Dict[str, str]] = None    # device prompt templates overriding the platform's (e.g. Junos banner line)
     initial_prompt: bool = False  # device prints its prompt at connect (as after a library-transport login); default: session starts in step
     decor: Optional[dict] = None  # {"kind": "cr"|"ansi"|"ansi+cr", "seed": n, "p": density} applied to every device output
@@ -120,9 +121,10 @@ class Scenario:
     cut_at: Optional[List[int]] = None  # cut the global output stream exactly at these absolute offsets (overrides cuts)
     banner: bytes = b""
     commandeer: bool = False     # a GenericDriver opens the connection, the platform driver takes it over with commandeer()
+    pauses: Optional[List[int]] = None   # absolute offsets of the output stream at which the line goes quiet for a whole transport timeout
 
     def describe(self):
-        d = {k: getattr(self, k) for k in ("platform", "stack", "hostname", "user", "ret", "rough", "depth", "cuts", "ops", "outputs", "questions", "trailing", "initial_prompt", "decor", "echo_junk", "cut_at", "prompts", "commandeer")}
+        d = {k: getattr(self, k) for k in ("platform", "stack", "hostname", "user", "ret", "rough", "depth", "cuts", "ops", "outputs", "questions", "trailing", "initial_prompt", "decor", "echo_junk", "cut_at", "prompts", "commandeer", "pauses")}
         d["nl"] = self.nl.decode("latin1")
         d["cuts"] = cuts_wire(self.cuts)
         d["banner"] = self.banner.decode("latin1")
@@ -152,6 +154,7 @@ class RunResult:
     device: Any = None
     conn: Any = None
     unread_before: List[bytes] = field(default_factory=list)   # transport bytes unread when each driver-level op started
+    writes_before: List[int] = field(default_factory=list)     # number of transport writes made when each driver-level op started
     stalled: bool = False
     error: Optional[str] = None
     prompt_pattern: str = ""
@@ -292,6 +295,8 @@ def run_real(sc: Scenario) -> RunResult:
         conn, t = make_conn(sc.platform, wired, stack=sc.stack, cuts=cuts, **kw)
     if sc.depth is not None:
         conn.comms_prompt_search_depth = sc.depth
+    if sc.pauses:
+        t.pauses = set(sc.pauses)
     res.conn = conn
     _wrap_channel(conn, res.chan_calls, sc.stack == "async")
 
@@ -314,6 +319,12 @@ def run_real(sc: Scenario) -> RunResult:
         # already prepared as far as the simulated device is concerned
         conn.on_open = None
 
+    def set_pattern():
+        """the user narrows the prompt pattern of the open connection (public setter) to exactly the prompt the device shows: from
+        now on lines that only the OLD pattern accepted are ordinary output"""
+        conn.comms_prompt_pattern = "^" + re.escape(dev.prompt().replace(b"\r", b"").decode().strip()) + r"\s*$"
+        res.op_results.append(("PATTERN", b"", False, ""))
+
     def abandoned(op):
         """the operation was given up while the device was silent in the middle of its output (a timeout with the connection
         kept, a cancelled task): the device then prints the rest; the NEXT operations must be exact again"""
@@ -330,10 +341,14 @@ def run_real(sc: Scenario) -> RunResult:
             await conn.open()
         for op in sc.ops:
             res.unread_before.append(bytes(t.buf))
+            res.writes_before.append(t.nwrites)
             if op[0] == "reopen":
                 reopen()
                 await conn.open()
                 res.op_results.append(("REOPENED", b"", False, ""))
+                continue
+            if op[0] == "set_pattern":
+                set_pattern()
                 continue
             if op[0] == "abandon":
                 dev.withhold = (op[1].strip(), op[2], *((op[3].encode("latin1"),) if len(op) > 3 else ()))
@@ -354,10 +369,14 @@ def run_real(sc: Scenario) -> RunResult:
             conn.open()
         for op in sc.ops:
             res.unread_before.append(bytes(t.buf))
+            res.writes_before.append(t.nwrites)
             if op[0] == "reopen":
                 reopen()
                 conn.open()
                 res.op_results.append(("REOPENED", b"", False, ""))
+                continue
+            if op[0] == "set_pattern":
+                set_pattern()
                 continue
             if op[0] == "abandon":
                 dev.withhold = (op[1].strip(), op[2], *((op[3].encode("latin1"),) if len(op) > 3 else ()))
@@ -396,6 +415,8 @@ def _do(conn, op, is_async):
         return conn.send_command(op[1], strip_prompt=op[2], eager_input=op[3] if len(op) > 3 else False)
     if k == "send_commands":
         return conn.send_commands(list(op[1]), strip_prompt=op[2])
+    if k == "send_and_read":
+        return conn.send_and_read(op[1], expected_outputs=list(op[2]), strip_prompt=op[3], read_duration=100000)
     if k == "send_interactive":
         comp = op[2]
         if comp is not None and len(op) > 3 and op[3] is not None:
@@ -441,8 +462,8 @@ def model_request(sc: Scenario, res: RunResult) -> Optional[str]:
         prx = rx(res.prompt_pattern.encode(), flags)
     except RxUnsupported:
         return None
-    if sc.commandeer or any(op[0] == "reopen" for op in sc.ops):
-        return None      # two driver objects / two sessions on one object: judged by the oracle
+    if sc.commandeer or any(op[0] in ("reopen", "send_and_read", "set_pattern") for op in sc.ops):
+        return None      # two driver objects / two sessions on one object / the timed read loop: judged by the oracle
     if res.abandoned:
         return None      # an operation given up midway: judged by the oracle on the following operations, not replayed on the model
     ops, table = [], {}
